@@ -76,6 +76,14 @@ def showSaved : Option (List (Tile × List Bytes)) → String
   | none => "none"
   | some l => if l.isEmpty then "_" else ",".intercalate (l.map fun (t, d) => showTile t ++ "=" ++ digest d)
 
+/-- the calls of a `readseq` history: `idx faults` token pairs -/
+def calls? : List String → Option (List (List Nat × List Fault))
+  | [] => some []
+  | [_] => none
+  | idx :: fs :: rest => do
+    let idx ← natList idx; let fs ← faults? fs; let r ← calls? rest
+    pure ((idx, fs) :: r)
+
 def handle : Handler
   | "tileforindex", [h, i] => do
     let h ← h.toNat?; let i ← i.toNat?
@@ -112,6 +120,20 @@ def handle : Handler
         | .ok th =>
           let out := readHashes nodeH n th h idx (serve st fs)
           showHashes out.result ++ " saved=" ++ showSaved out.saved)
+  -- a history of calls through one reader value: the model's reader has no state, so every call is `readHashes`
+  -- against the server of that call (the tile server may answer differently from call to call)
+  | "readseq", n :: h :: seed :: cs => do
+    let n ← n.toNat?; let h ← h.toNat?; let seed ← seed.toNat?; let cs ← calls? cs
+    let recs := (List.range n).map (synthRecord seed)
+    pure (match buildStore leafH nodeH recs with
+      | .error e => showErr e
+      | .ok st =>
+        match treeHash nodeH emptyH n (storeReader st) with
+        | .error e => showErr e
+        | .ok th =>
+          " | ".intercalate (cs.map fun (idx, fs) =>
+            let out := readHashes nodeH n th h idx (serve st fs)
+            showHashes out.result ++ " saved=" ++ showSaved out.saved))
   | _, _ => none
 
 end ModVerif.Drv.Tile
